@@ -1285,7 +1285,10 @@ class AstEval:
                                 return val
                     finally:
                         if handler.name is not None:
-                            self.sym_table.pop(handler.name, None)
+                            if isinstance(self.sym_table.get(handler.name), EvalLocalVar):
+                                self.sym_table[handler.name].set_undefined()
+                            else:
+                                self.sym_table.pop(handler.name, None)
                     break
             else:
                 raise err
